@@ -50,7 +50,7 @@ def run(ctx):
         elif tag == "directed-F6":
             f = 0
         else:
-            f = r.choice(flagsets) if r.random() < 0.5 else gen_prog.random_flags(r)
+            f = r.choice(flagsets) if (r.random() < 0.5 and not tag.startswith("flagsens")) else runlib.pick_flags(r, tag, 0.2)
         base.append((p, e, f))
     lines0 = [run_line(p, e, f=f, m=0) for p, e, f in base]
     outs0 = vlib.run_impl("run", lines0)
